@@ -35,15 +35,29 @@ pub proof fn lemma_orbit_zero(b: int, a: int, m: int)
 //  * LT part: d indices orbit(b, a, W, j), j = 0..d-1
 //  * PI part: d1 indices W + orbit(b1, a1, P1, k_t) where k_0 < k_1 < ... are the positions of the walk whose value is < P:
 //    k_0 is the first such position >= 0, k_t the first one > k_{t-1}
+// opaque: the loop invariants carry it as an atom (nested quantifiers made the proofs unstable); revealed only where a new position is recorded
+#[verifier::opaque]
 pub open spec fn pi_pos_ok(b1: int, a1: int, p: int, p1: int, from: int, k: int) -> bool {
     from <= k && orbit(b1, a1, p1, k) < p && forall |j: int| from <= j < k ==> #[trigger] orbit(b1, a1, p1, j) >= p
 }
+// idx[base + s]: a named term so that quantifier triggers contain no arithmetic (arithmetic inside a trigger is matched syntactically)
+pub open spec fn at2(idx: Seq<int>, base: int, s: int) -> int { idx[base + s] }
 pub open spec fn enc_idx_ok(idx: Seq<int>, ks: Seq<int>, t: (u32, u32, u32, u32, u32, u32), w: int, p: int, p1: int) -> bool {
     let (d, a, b, d1, a1, b1) = t;
     &&& idx.len() == d + d1 && ks.len() == d1 as int
     &&& forall |j: int| 0 <= j < d ==> #[trigger] idx[j] == orbit(b as int, a as int, w, j)
-    &&& forall |s: int| 0 <= s < d1 ==> #[trigger] idx[d + s] == w + orbit(b1 as int, a1 as int, p1, ks[s])
+    &&& forall |s: int| 0 <= s < d1 ==> #[trigger] at2(idx, d as int, s) == w + orbit(b1 as int, a1 as int, p1, ks[s])
                                        && pi_pos_ok(b1 as int, a1 as int, p, p1, if s == 0 { 0 } else { ks[s - 1] + 1 }, ks[s])
+}
+// introduction rule (proved in a small context; callers establish the three conjuncts literally)
+pub proof fn lemma_enc_idx_intro(idx: Seq<int>, ks: Seq<int>, t: (u32, u32, u32, u32, u32, u32), w: int, p: int, p1: int)
+    requires
+        idx.len() == t.0 + t.3 && ks.len() == t.3 as int,
+        forall |j: int| 0 <= j < t.0 ==> #[trigger] idx[j] == orbit(t.2 as int, t.1 as int, w, j),
+        forall |s: int| 0 <= s < t.3 ==> #[trigger] at2(idx, t.0 as int, s) == w + orbit(t.5 as int, t.4 as int, p1, ks[s])
+            && pi_pos_ok(t.5 as int, t.4 as int, p, p1, if s == 0 { 0 } else { ks[s - 1] + 1 }, ks[s]),
+    ensures enc_idx_ok(idx, ks, t, w, p, p1),
+{
 }
 // xor of the symbols at the first n indices
 pub open spec fn acc(v: Seq<Seq<u8>>, idx: Seq<int>, n: nat) -> Seq<u8>
@@ -71,10 +85,33 @@ pub proof fn lemma_acc_prefix(v: Seq<Seq<u8>>, i1: Seq<int>, i2: Seq<int>, n: na
 '''
 
 
+def final_steps(W, P, P1):
+    """proof text establishing enc_idx_ok(idx, ks, source_tuple, W, P, P1) after the PI loop; the quantified facts are restated with
+    the triggers of enc_idx_ok's own definition (idx[source_tuple.0 + s]) because arithmetic inside a trigger is matched syntactically"""
+    return ('assert(b0 == source_tuple.2 as int && b10 == source_tuple.5 as int && a == source_tuple.1 && a1 == source_tuple.4 && d == source_tuple.0 && d1 == source_tuple.3);'
+            ' assert(idx.len() == d + d1 && ks.len() == d1 as int);'
+            ' assert(d1 <= 3 && p as int == (%(P)s) && w as int == (%(W)s) && p1 as int == (%(P1)s));'
+            ' assert forall |s: int| 0 <= s < source_tuple.3 implies #[trigger] at2(idx, source_tuple.0 as int, s) == (%(W)s) + orbit(source_tuple.5 as int, source_tuple.4 as int, %(P1)s, ks[s])'
+            '   && pi_pos_ok(source_tuple.5 as int, source_tuple.4 as int, %(P)s, %(P1)s, if s == 0 { 0 } else { ks[s - 1] + 1 }, ks[s]) by {'
+            '   if s == 0 { assert(at2(idx, d as int, 0) == w as int + orbit(b10, a1 as int, p1 as int, ks[0])); }'
+            '   else if s == 1 { assert(at2(idx, d as int, 1) == w as int + orbit(b10, a1 as int, p1 as int, ks[1])); }'
+            '   else { assert(s == 2); assert(at2(idx, d as int, 2) == w as int + orbit(b10, a1 as int, p1 as int, ks[2])); } }'
+            ' assert forall |j: int| 0 <= j < source_tuple.0 implies #[trigger] idx[j] == orbit(source_tuple.2 as int, source_tuple.1 as int, %(W)s, j) by { assert(idx[j] == orbit(b0, a as int, w as int, j)); }'
+            # the three conjuncts of enc_idx_ok, literally
+            ' assert(idx.len() == source_tuple.0 + source_tuple.3 && ks.len() == source_tuple.3 as int);'
+            ' assert(forall |j: int| 0 <= j < source_tuple.0 ==> #[trigger] idx[j] == orbit(source_tuple.2 as int, source_tuple.1 as int, %(W)s, j));'
+            ' assert(forall |s: int| 0 <= s < source_tuple.3 ==> #[trigger] at2(idx, source_tuple.0 as int, s) == (%(W)s) + orbit(source_tuple.5 as int, source_tuple.4 as int, %(P1)s, ks[s])'
+            '   && pi_pos_ok(source_tuple.5 as int, source_tuple.4 as int, %(P)s, %(P1)s, if s == 0 { 0 } else { ks[s - 1] + 1 }, ks[s]));'
+            ' lemma_enc_idx_intro(idx, ks, source_tuple, %(W)s, %(P)s, %(P1)s);') % {'W': W, 'P': P, 'P1': P1}
+
+
 def walk_loops(COMMON, ST_J, ST_S, PUSH):
     """loop annotations shared by enc_into (V-ENCINTO) and enc_indices (V-ENCIDX): the two walks of RFC 6330 5.3.5.3.
     ST_J / ST_S: invariant clause tying the tracked exec state (dest / trace) to the ghost index sequence idx inside the LT loop / PI loop;
     PUSH(x): proof text run after `idx = idx.push(x)` (oi is the sequence before the push)"""
+    def PI(k, I, KS):
+        frm = '0' if k == 0 else '%s[%d] + 1' % (KS, k - 1)
+        return ('(at2(%s, d as int, %d) == w as int + orbit(b10, a1 as int, p1 as int, %s[%d]) && pi_pos_ok(b10, a1 as int, p as int, p1 as int, %s, %s[%d]))' % (I, k, KS, k, frm, KS, k))
     return {
              0: {'spec': 'invariant ' + COMMON + ' (b as int) < w as int, b as int == orbit(b0, a as int, w as int, verif_j as int - 1), idx.len() == verif_j as int, 1 <= verif_j, verif_j <= d,'
                          ' forall |j: int| 0 <= j < verif_j as int ==> #[trigger] idx[j] == orbit(b0, a as int, w as int, j), ' + ST_J + ',',
@@ -83,16 +120,21 @@ def walk_loops(COMMON, ST_J, ST_S, PUSH):
              1: {'spec': 'invariant ' + COMMON + ' (b1 as int) < p1 as int, gk >= 0, b1 as int == orbit(b10, a1 as int, p1 as int, gk), forall |j: int| 0 <= j < gk ==> #[trigger] orbit(b10, a1 as int, p1 as int, j) >= p as int,',
                  'body_top': 'proof { lemma_orbit_step(b10, a1 as int, p1 as int, gk); }',
                  'body_bottom': 'proof { gk = gk + 1; }'},
-             2: {'before': 'proof { let oi = idx; idx = idx.push(w as int + b1 as int); ks = ks.push(gk); ' + PUSH('w as int + b1 as int') + ' }',
-                 'spec': 'invariant ' + COMMON + ' (b1 as int) < p as int, gk >= 0, b1 as int == orbit(b10, a1 as int, p1 as int, gk), idx.len() == d as int + verif_s as int, ks.len() == verif_s as int, 1 <= verif_s, verif_s <= d1, ks[verif_s as int - 1] == gk,'
+             2: {'before': 'proof { let oi = idx; idx = idx.push(w as int + b1 as int); ks = ks.push(gk); ' + PUSH('w as int + b1 as int') +
+                           ' assert(pi_pos_ok(b10, a1 as int, p as int, p1 as int, 0, gk)) by { reveal(pi_pos_ok); } assert(at2(idx, d as int, 0) == w as int + b1 as int); }',
+                 # d1 <= 3: the PI part is stated position by position (no quantifier over s: those proofs were unstable)
+                 'spec': 'invariant ' + COMMON + ' (b1 as int) < p as int, gk >= 0, b1 as int == orbit(b10, a1 as int, p1 as int, gk), idx.len() == d as int + verif_s as int, ks.len() == verif_s as int, 1 <= verif_s, verif_s <= d1, d1 <= 3, ks[verif_s as int - 1] == gk,'
                          ' forall |j: int| 0 <= j < d as int ==> #[trigger] idx[j] == orbit(b0, a as int, w as int, j),'
-                         ' forall |s: int| 0 <= s < verif_s as int ==> #[trigger] idx[d as int + s] == w as int + orbit(b10, a1 as int, p1 as int, ks[s]) && pi_pos_ok(b10, a1 as int, p as int, p1 as int, if s == 0 { 0 } else { ks[s - 1] + 1 }, ks[s]),'
+                         ' ' + PI(0, 'idx', 'ks') + ', verif_s > 1 ==> ' + PI(1, 'idx', 'ks') + ', verif_s > 2 ==> ' + PI(2, 'idx', 'ks') + ','
                          ' ' + ST_S + ',',
                  'body_top': 'let ghost from = gk + 1; proof { lemma_orbit_step(b10, a1 as int, p1 as int, gk); }',
                  'body_bottom': ('proof { let oi = idx; let oks = ks; idx = idx.push(w as int + b1 as int); ks = ks.push(gk); ' + PUSH('w as int + b1 as int') +
                                  ' assert forall |j: int| 0 <= j < d as int implies #[trigger] idx[j] == orbit(b0, a as int, w as int, j) by { assert(idx[j] == oi[j]); }'
-                                 ' assert forall |s: int| 0 <= s < verif_s as int + 1 implies #[trigger] idx[d as int + s] == w as int + orbit(b10, a1 as int, p1 as int, ks[s]) && pi_pos_ok(b10, a1 as int, p as int, p1 as int, if s == 0 { 0 } else { ks[s - 1] + 1 }, ks[s]) by {'
-                                 '   if s < verif_s as int { assert(idx[d as int + s] == oi[d as int + s]); assert(ks[s] == oks[s]); if s > 0 { assert(ks[s - 1] == oks[s - 1]); } } else { assert(ks[s - 1] == oks[s - 1]); } } }')},
+                                 ' assert(pi_pos_ok(b10, a1 as int, p as int, p1 as int, from, gk)) by { reveal(pi_pos_ok); }'
+                                 ' assert(at2(idx, d as int, verif_s as int) == w as int + b1 as int);'
+                                 ' assert(at2(idx, d as int, 0) == at2(oi, d as int, 0) && ks[0] == oks[0]);'
+                                 ' if verif_s > 1 { assert(at2(idx, d as int, 1) == at2(oi, d as int, 1) && ks[1] == oks[1]); }'
+                                 ' assert(ks[verif_s as int] == gk && ks[verif_s as int - 1] == oks[verif_s as int - 1]); }')},
              3: {'before': 'proof { gk = gk + 1; }',
                  'spec': 'invariant ' + COMMON + ' (b1 as int) < p1 as int, gk >= from, from >= 1, b1 as int == orbit(b10, a1 as int, p1 as int, gk), forall |j: int| from <= j < gk ==> #[trigger] orbit(b10, a1 as int, p1 as int, j) >= p as int,',
                  'body_top': 'proof { lemma_orbit_step(b10, a1 as int, p1 as int, gk); }',
@@ -150,7 +192,7 @@ impl SymbolSlab {
                    'let ghost mut idx: Seq<int> = seq![b0]; let ghost mut ks: Seq<int> = Seq::empty(); let ghost mut gk: int = 0;')],
          loops=walk_loops(COMMON, 'dest@ == acc(%s, idx, verif_j as nat)' % VIEW, 'dest@ == acc(%s, idx, (d as int + verif_s as int) as nat)' % VIEW,
                           lambda x: 'lemma_acc_push(%s, oi, %s);' % (VIEW, x)),
-         append='proof { assert(b0 == source_tuple.2 as int && b10 == source_tuple.5 as int && a == source_tuple.1 && a1 == source_tuple.4 && d == source_tuple.0 && d1 == source_tuple.3); assert(idx.len() == d + d1 && ks.len() == d1 as int); assert(enc_idx_ok(idx, ks, source_tuple, w_of(%s), p_of(%s), p1_of(%s))); }' % (K, K, K))
+         append='proof { ' + final_steps('w_of(%s)' % K, 'p_of(%s)' % K, 'p1_of(%s)' % K) + ' }')
     u.raw('} // verus!')
     u.raw(ACC_LEMMAS, label='xor accumulation lemmas')
     return u
